@@ -61,8 +61,11 @@ def r3_2(ctx):
             continue
         W = ew.args[0]
         con = construct(f, "site-" + ("facility" if s.facility is not None else "worker-only"))
-        wloop = s.loops[-1]
-        wname = wloop.node.target.id if isinstance(wloop.node.target, ast.Name) else None
+        wname, cand = s.worker_name, s.cand_name
+        if s.worker_loop is None and s.pick is None:
+            ctx.instance(f"{con}#{i}")
+            ctx.violation(con + ":candidate-source", ew.loc, "the allocated worker is neither the variable of a candidate loop nor an element picked from a candidate list: cannot tell where it comes from")
+            continue
         idx = s.trace.index(ew)
         narrowed = []
         for e in s.trace[idx:]:
@@ -80,9 +83,9 @@ def r3_2(ctx):
         for n in ast.walk(f.node):
             if isinstance(n, ast.Assign) and isinstance(n.targets[0], ast.Name) and n.targets[0].id != narrowed[0]:
                 if Interp._source_name(n.value) == narrowed[0] or any(isinstance(c, ast.Name) and c.id == narrowed[0] for c in ast.walk(n.value)):
-                    if isinstance(wloop.node.iter, ast.Name) and wloop.node.iter.id == n.targets[0].id:
+                    if cand is not None and cand == n.targets[0].id:
                         src_ok = True
-        if isinstance(wloop.node.iter, ast.Name) and wloop.node.iter.id == narrowed[0]:
+        if cand is not None and cand == narrowed[0]:
             src_ok = True
         if not src_ok:
             ctx.violation(con + ":narrowed-wrong-collection", ew.loc, f"the collection narrowed after allocation (`{narrowed[0]}`) is not the one the worker candidates are drawn from")
